@@ -913,9 +913,17 @@ fn c11(scn: &Scenario, _rf: &Ref, ex: &Exec, out: &mut Vec<Finding>) {
                     out.push(f("claim-size", format!("frame {}: thread {} claimed {} positions in one pull, Exact({})", i, e.slot, e.b, c)));
                     return;
                 }
-                // claims beyond the end of the source are void (after early exit the counter jumps to the end);
-                // later frames pull from a materialised intermediate vector whose length the harness does not know
-                if i == 0 && (e.a as usize) < scn.vals.len() {
+                // claims beyond the end of the input of the frame are void (after early exit the counter jumps to the
+                // end). The input of a frame is the original source only if nothing was materialised before it (a
+                // stage evaluated sequentially under num_threads(1) hands a shorter or longer vector to frame 0), so
+                // the bound is the length the runner reported; without one only frame 0 is checked, whose input then
+                // is the original source of unknown length
+                let bound = match fr.info.input_len {
+                    Some(n) => Some(n),
+                    None if i == 0 => Some(scn.vals.len()),
+                    None => None,
+                };
+                if bound.map(|n| (e.a as usize) < n).unwrap_or(false) {
                     if e.a != expect && e.b == c as u64 {
                         out.push(f("claim-sequence", format!("frame {}: a pull starts at position {} where {} was expected (Exact({}))", i, e.a, expect, c)));
                         return;
